@@ -134,12 +134,19 @@ def replace_uses_of(model: Model, cls: ClassInfo):
     owner, f = r
     params = [a.arg for a in f.args.args]
     out = {}
+    in_orelse = set()
+    for n in ast.walk(f):
+        if isinstance(n, ast.If):
+            for s in n.orelse:
+                for x in ast.walk(s):
+                    if isinstance(x, ast.If):
+                        in_orelse.add(id(x))
     for n in ast.walk(f):
         if isinstance(n, ast.If):
             for st in n.body:
                 if isinstance(st, ast.Assign) and isinstance(st.targets[0], ast.Attribute) and isinstance(st.targets[0].value, ast.Name) and st.targets[0].value.id == "self":
                     fld = st.targets[0].attr
-                    info = {"assigned": unparse(st.value), "cmp": None, "cmp_to": None, "guarded": False, "node": n}
+                    info = {"assigned": unparse(st.value), "cmp": None, "cmp_to": None, "guarded": False, "node": n, "chained": id(n) in in_orelse}
                     for c in ast.walk(n.test):
                         if isinstance(c, ast.Compare) and len(c.ops) == 1 and isinstance(c.ops[0], ast.Eq):
                             info["cmp"] = unparse(c.left)
